@@ -50,7 +50,7 @@ theorem macroAccepts_inv (d : ReqDesc) (h : d.macroAccepts = true) :
   unfold ReqDesc.macroAccepts ReqDesc.hasQueryAll ReqDesc.hasQueryFields at h
   simp only [Bool.and_eq_true, decide_eq_true_eq, Bool.not_eq_true', Bool.and_eq_false_imp,
     Bool.not_eq_false', List.isEmpty_iff] at h
-  obtain ⟨⟨⟨h1, h2⟩, h3⟩, h4⟩ := h
+  obtain ⟨⟨⟨⟨h1, h2⟩, h3⟩, h4⟩, _⟩ := h
   refine ⟨h1, h2, h3, ?_⟩
   intro hne
   apply h4
